@@ -359,3 +359,38 @@ def c10(c):
              "under both readings and success only if legal under both.",
         exhaustive=False,
         assumptions=["overlapping source/destination inside the sandbox is not driven (std::memcpy semantics undefined)"]))
+
+
+def guest_libs():
+    return [dict(name="libguest1.so", kind="shared", srcs=["harness/guest/guest_lib.c"], defs=["LIBID=1"]),
+            dict(name="libguest2.so", kind="shared", srcs=["harness/guest/guest_lib.c"], defs=["LIBID=2"])]
+
+
+def guest_env(c):
+    return {"VERIF_GUEST1": os.path.join(c.bdir, "libguest1.so"), "VERIF_GUEST2": os.path.join(c.bdir, "libguest2.so")}
+
+
+# --------------------------------------------------------------------- C13
+@plan("C13")
+def c13(c):
+    units = guest_libs() + [dict(name="c13_callbacks", srcs=[D + "c13_callbacks.cpp"], build="asan", defs=EXC, libs=["-ldl"], needs=["libguest1.so"])]
+    runs = []
+    ns = 2 if not c.thorough else 5
+    for b, bn in enumerate(["model", "noop", "dylib"]):
+        runs += sliced("c13_callbacks", ns, label="c13_" + bn, args=[b], env=guest_env(c))
+    return dict(units=units, runs=runs, evidence=dict(
+        level="exploration",
+        rule="history = sequence over {register f_i into owner j (move-assign onto whatever j holds), unregister, destroy owner, move-construct, "
+             "move-assign onto empty / live owner / itself, destroy_sandbox, re-create sandbox} executed on the real sandbox_callback objects in "
+             "lock-step with a reference model (function -> owner map, capacity, sandbox-alive flag). After every step: is_unregistered() and entry "
+             "point of every owner; a guest call through every live owner's entry point must run exactly its function once with its own sandbox; "
+             "for every function a fresh register_callback must abort iff the model says it is registered (success is undone at once). Exhaustive: "
+             "ALL sequences of length 3 (quick) / 4 (thorough) over 2 functions x 3 owners (29 operations), each replayed from a fresh sandbox, an "
+             "expected abort ends a history. Random: histories of 60 (quick) / 300 (thorough) steps with pools smaller than, nearly as large as and "
+             "larger than the entry-point table, plus capacity accounting probes (the backend must accept exactly capacity-minus-live more "
+             "registrations) and a complete fill of the table. Backends: model (8 entry points), noop and dylib (64). "
+             "distinct_nontrivial = replayed exhaustive sequences + distinct random histories.",
+        exhaustive=False,
+        exhaustive_subspaces=["all operation sequences of length 3 (quick) / 4 (thorough) over 2 functions and 3 owners, per backend"],
+        assumptions=["owners whose sandbox incarnation was destroyed are not judged, only that unregistering/destroying them is harmless",
+                     "the model backend refuses registration when its table is full (its duty under the plug-in contract)"]))
